@@ -5,6 +5,7 @@ import Bmc.Proofs.EndToEnd.SessionC09
 import Bmc.Proofs.EndToEnd.SessionlessC09
 import Bmc.Proofs.EndToEnd.HistoryC09
 import Bmc.Proofs.EndToEnd.SessionlessHistory
+import Bmc.Proofs.EndToEnd.WholeC09
 #print axioms Bmc.Proofs.C09.command_seqs
 #print axioms Bmc.Proofs.C09.serialise_failure_consumes_nothing
 #print axioms Bmc.Proofs.C09.history_seqs
@@ -30,3 +31,4 @@ import Bmc.Proofs.EndToEnd.SessionlessHistory
 #print axioms Bmc.Proofs.EndToEnd.generated_sessionless_history
 #print axioms Bmc.Proofs.EndToEnd.generated_sessionless_history_ignores_connection
 #print axioms Bmc.Proofs.EndToEnd.generated_sessionless_history_null
+#print axioms Bmc.Proofs.EndToEnd.generated_session_then_history_sequence_numbers
